@@ -4,6 +4,7 @@ import (
 	"fmt"
 	"go/token"
 	"go/types"
+	"sort"
 
 	"golang.org/x/tools/go/ssa"
 )
@@ -347,6 +348,12 @@ func (x *Exec) atLoopHead(st *State, f *Frame, li *LoopInfo) bool {
 		}
 	}
 	f.active[li.head] = entry
+	if len(st.frames) == 1 {
+		if st.loopTrace == nil {
+			st.loopTrace = map[int]*Term{}
+		}
+		st.loopTrace[entry.ordinal] = entry.trace
+	}
 	return true
 }
 
@@ -425,7 +432,10 @@ func (x *Exec) havocLoop(st *State, f *Frame, li *LoopInfo) {
 			}
 		}
 	}
-	for b := range li.body {
+	for _, b := range f.fn.Blocks {
+		if !li.body[b] {
+			continue
+		}
 		for _, in := range b.Instrs {
 			switch in := in.(type) {
 			case *ssa.Store:
@@ -526,10 +536,20 @@ func (x *Exec) havocLoop(st *State, f *Frame, li *LoopInfo) {
 			}
 		}
 	}
+	var cellList []*Cell
 	for c := range cells {
+		cellList = append(cellList, c)
+	}
+	sort.Slice(cellList, func(i, j int) bool { return cellList[i].id < cellList[j].id })
+	for _, c := range cellList {
 		x.havocCell(st, c)
 	}
+	var ownedIds []int
 	for id := range ownedWritten {
+		ownedIds = append(ownedIds, id)
+	}
+	sort.Ints(ownedIds)
+	for _, id := range ownedIds {
 		os := st.owned[id]
 		e := seqElem(os.content.Sort)
 		nc := st.Fresh("owned", os.content.Sort)
@@ -537,7 +557,8 @@ func (x *Exec) havocLoop(st *State, f *Frame, li *LoopInfo) {
 		os.content = nc
 		os.depth = x.loopDepth(st) + 1
 	}
-	for n, full := range heapNames {
+	for _, n := range sortedEffKeys(heapNames) {
+		full := heapNames[n]
 		switch n {
 		case "$trace":
 			x.havocTrace(st)
